@@ -368,3 +368,30 @@ Section Lines.
       split; [intros [|j] rj; discriminate|]. exists []. simpl. rewrite !app_nil_r. split; [reflexivity|constructor].
   Qed.
 End Lines.
+
+(* the concrete sort key of the extracted run satisfies the key contract *)
+Lemma skey_of_total {C W} (sem : colsem C W) (py_int : str -> option Z) o cs (r : rec (payload C W)) :
+  match skey_of sem py_int o cs r with Ok _ => True | Raise e => e = ValueError end.
+Proof.
+  unfold skey_of. destruct (field_text sem r C_CHROM) as [name|]; [|exact I].
+  destruct (nonempty cs); [|exact I]. destruct (index_of name cs 0); [exact I|reflexivity].
+Qed.
+
+(* "declares a sortable order", read through the header spec (uses C13) *)
+From MafVerif Require Import proofs.HeaderSpec.
+Lemma declares_sortable_spec {C} (registry : list (scheme (cls C))) lines :
+  declares_sortable registry lines ->
+  exists v, kept_value SP_SORT (fst (expected_header (map rstrip_crlf (fst (split_file lines))))) = Some v /\
+            In v SP_COORD_NAMES.
+Proof.
+  intros Hd. unfold declares_sortable in Hd.
+  rewrite header_from_lines_silent in Hd. specialize (Hd _ eq_refl). simpl in Hd.
+  pose proof (accessors_spec registry (map rstrip_crlf (fst (split_file lines))) (Some Silent) LgRoot) as Ha.
+  rewrite header_from_lines_silent in Ha. specialize (Ha _ _ eq_refl). simpl in Ha.
+  destruct Ha as (_ & _ & _ & Hnone & Hsome).
+  destruct (kept_value SP_SORT (fst (expected_header (map rstrip_crlf (fst (split_file lines)))))) as [v|].
+  - exists v. split; [reflexivity|].
+    destruct (Hsome v eq_refl) as (o & cs & _ & Hname & Hso). rewrite Hso in Hd. simpl in Hd.
+    subst v. destruct o; try discriminate; simpl; auto.
+  - rewrite (Hnone eq_refl) in Hd. discriminate.
+Qed.
